@@ -77,7 +77,7 @@ def pad(array, shape):
         cmax1 = shape[1]
     else:
         cmin0 = 0
-        cmax0 = array.shape[1]
+        cmax0 = array.shape[1+offset]
         cmin1 = shape[1]//2 - array.shape[1+offset]//2
         cmax1 = cmin1 + array.shape[1+offset]
 
